@@ -36,7 +36,8 @@ def check_apply(prog, rep, m):
         raise AnalysisIncomplete('focal._apply_numpy not found')
     entry = 'apply'
     data, kernel, func = f.params[:3]
-    k = interpret(prog, f)
+    # the window copy moved into a jitted helper (a phase of the kernel) is read in place
+    k = interpret(prog, f, inline_procedures=True, inline_all=lambda g_: g_.jit is not None and prog.same_unit(f.module, g_.module))
     rets = returned_arrays(k)
     out = rets[0] if rets else None
     cell = [s for s in k.stores if s.arr is out and s.idx != 'all']
@@ -577,7 +578,12 @@ def check_hotspots(prog, rep, m):
                     t_ = t_[:4]
                 return tuple(strip_serial(x_) for x_ in t_)
             return t_
-        ok = any(tkey(strip_serial(z_)) == tkey(strip_serial(want)) for z_ in zs) if zs else None
+        def uncast(t_):
+            # a cast of the z-scores to the working float type they already have (`z.astype(np.float32, copy=False)`)
+            while isinstance(t_, tuple) and len(t_) == 3 and t_[0] == 'cast' and t_[2] in (('global', 'np.float32'), ('const', 'f4'), ('const', 'float32')):
+                t_ = t_[1]
+            return t_
+        ok = any(tkey(strip_serial(uncast(z_))) == tkey(strip_serial(want)) for z_ in zs) if zs else None
         rep.add('F5', g, entry, '%s: z = (convolve(data, kernel/sum) - nanmean(data)) / nanstd(data)' % fn, g.node.lineno, ok,
                 'the z-score compares the kernel-weighted neighbourhood mean with the GLOBAL mean and std of the raster')
     # kernel validation
